@@ -172,6 +172,22 @@ func rulePolicySync(c *Ctx, rule string) {
 		}
 		c.ob(rule, fn, "every policy written in a sync is marked active", nil, ok, "after policyChainName(policy) every path to the next policy / to the return passes activeChains[chain] = true in writeRules itself")
 	}
+	// syncIptables: no success without the restore — the stale-chain deletion lives in the batch, so a sync that returns nil
+	// without submitting it (e.g. "nothing to do for an empty policy list") never removes the chains of deleted policies
+	if fn := c.MustFn(rule, polPkg, "(*PolicyManager).syncIptables"); fn != nil {
+		rs := calls(fn, "Interface).RestoreAll", "Interface).Restore")
+		ei := errResultIndex(fn)
+		ok := len(rs) >= 1 && ei >= 0
+		if ok {
+			r := reachFromEntry(fn, newCut().callInstrs(rs))
+			for _, ret := range returns(fn) {
+				if r.has(ret) && isNilConst(retVal(ret, ei)) {
+					ok = false
+				}
+			}
+		}
+		c.ob(rule, fn, "the policy chains are synced whatever the number of policies", nil, ok, "every path to a nil-error return of syncIptables passes iptables RestoreAll: the `-X` of stale policy chains is part of that batch")
+	}
 	// createIPSet: stale entries are removed on every path after the old entries were listed
 	if fn := c.MustFn(rule, polPkg, "(*PolicyManager).createIPSet"); fn != nil {
 		ls := calls(fn, "ipset.Interface).ListEntries")
